@@ -21,7 +21,34 @@ AAP_UNITS = [
 QUICK_FLAGS = [0, 3, 5, 14]   # none; POCCA+POCMA; POCCA+POCS; all-but-POCCA incl. always_equal
 
 
-def units(tier):
+TRUSTED_BASE = [
+    'clang 14 front end: lowers the real headers to LLVM IR at -O0 without optimisation passes',
+    'tools/ll2c.py: generic LLVM-IR-to-C translation (no per-function rules; drops only optimiser hints, see DESIGN 3.3)',
+    'goto-cc C front end, goto-instrument dfcc contract instrumentation, CBMC symbolic execution, SAT back end (cadical/kissat/minisat2)',
+    'contracts/prelude.c: model of the allocator hooks (ledger), memcpy/memmove/memset with run-time length, object-lifetime hooks',
+    'libstdc++ 12 headers as compiled into the IR (translated and verified together with cntgs code, not assumed)',
+]
+ASSUMPTIONS = [
+    'template parameters are enumerated (configuration catalogue), run-time inputs are universally quantified',
+    'x86-64 LP64 data layout; clang and g++ agree on the layout of the instantiated classes',
+    'request sizes are bounded by 2^32 bytes in preconditions (machine arithmetic: no wrap-around of size computations)',
+    'ledger model: at most 8 simultaneously live allocator blocks per proof unit (asserted, never assumed silently)',
+    'block bases are object start + align*k with k in [0,9]: writes below a block base by less than align*k bytes are not detected',
+    'the induction over operation histories (every public operation preserves the representation invariant) is a meta-argument over the discharged contracts',
+]
+PROPERTY_META = {
+    'C07': dict(claimed=True, level='proof',
+                text='Every owning operation of the real AllocatorAwarePointer (the only place where vector/element storage is allocated and freed) is proved against a contract over a ghost ledger: one allocation per constructor, deallocation exactly once, with the recorded size, through an allocator equal to the allocating one, for all sizes, ids and all 16 allocator trait combinations.',
+                note='Proved per function for the enumerated allocator trait combinations; trusted: clang lowering, ll2c translation, CBMC, the ledger model in contracts/prelude.c. Vector/element level ownership (address table) see level text and DESIGN.',
+                design_ref='DESIGN.md 6 C07'),
+    'C08': dict(claimed=True, level='proof',
+                text='Contracts on the real AllocatorAwarePointer copy/move construction, copy/move assignment and swap state the allocator_traits propagation table as postconditions (id after the operation) together with the ownership invariant (owned block was allocated by an equal allocator); discharged for all ids and all 16 trait combinations.',
+                note='Same trusted base as C07; vector/element wrappers are covered where listed in the evidence.',
+                design_ref='DESIGN.md 6 C08'),
+}
+
+
+def units(tier, seed=0):
     us = []
     flags = range(16) if tier == 'thorough' else QUICK_FLAGS
     for f in flags:
